@@ -368,6 +368,23 @@ CLAIMED.update(
     }
 )
 
+CLAIMED.update(
+    {
+        "C35": (
+            "table agreement between the report builder and the metric functions (same trace, same dictionaries, same factors), abstract interpretation of the per-line annotation helper and the entry additions over all membership combinations, no-memoisation rule on the report path",
+            "Decides the wiring that makes the report agree with the tracked coverage: the branch and branch-less totals are sums over the values of the very per-line dictionaries from "
+            "which the annotations are built (one annotation per source line); the per-line helper, interpreted for all 4 membership combinations of a line, yields the code-object entry, "
+            "the predicate entry and their sum; CoverageEntry / LineAnnotation addition is component-wise and only for the same line; branch_coverage / line_coverage are "
+            "compute_branch_coverage / compute_line_coverage on analyze_results of the last result of every test case; per predicate 2 existing branches and one covered per zero "
+            "distance VALUE (items membership), per branch-less code object 1 existing, covered iff executed - the factors compute_branch_coverage uses; the source is read from the "
+            "configured module at report time and nothing in the report module is memoised; the Cobertura totals add both branch kinds. Agreement of line ids with line numbers when "
+            "several code objects share a source line is not decided.",
+            "Trusts sa/engine/peval.py (dataclass instantiation, operator dispatch) and python's ast.",
+            "DESIGN.md §3 C35",
+        ),
+    }
+)
+
 NOT_APPLICABLE: dict[str, str] = {
     "C06": "Correctness of the post-dominator/CDG construction on every code object is functional correctness of a graph "
     "algorithm; no shape of the code implies it and no sound static argument in reach bounds 'all code objects'.",
